@@ -211,6 +211,26 @@ let () =
       let agree = prop_obs_agrees m o in
       verdict ~agree ~spec:agree ~kf:"-"
         ~detail:(Printf.sprintf "model=%s" (match m with Ok s -> "sel " ^ show_chars s | Err N0 -> "err" | Err _ -> "err(code)" | Panic -> "panic"))
+    (* ---- Response.DecodeProp with several values *)
+    | [L [A "propm"; L tags; rc; L pss]; L [A "obs"; ob]] ->
+      let tag_of = function L (A "none" :: _) -> None | L [A "tag"; t] -> Some (str t) | x -> raise (Parse_error ("tag " ^ show x)) in
+      let tags = List.map tag_of tags in
+      let pss = List.map (function
+          | L (code :: raws) -> (n_of_int (int_ code), List.map raw_of_sx raws)
+          | x -> raise (Parse_error ("propstat " ^ show x))) pss in
+      let m = decode_prop_all tags (match rc with A "-" -> None | c -> Some (n_of_int (int_ c))) pss in
+      let o = match ob with
+        | L (A "sels" :: ids) -> PMSel (List.map str ids)
+        | A "notfound" -> PMNotFound
+        | A "other" -> PMOther
+        | A "panic" -> PMPanic
+        | x -> raise (Parse_error ("propm obs " ^ show x)) in
+      bump "kind_propm";
+      bump (Printf.sprintf "propm_%d_%s" (List.length tags) (match o with PMSel _ -> "sel" | PMNotFound -> "notfound" | PMOther -> "other" | PMPanic -> "panic"));
+      note_nontrivial (show (List.hd sx));
+      let agree = propm_obs_agrees m o in
+      verdict ~agree ~spec:agree ~kf:"-"
+        ~detail:(Printf.sprintf "model=%s" (match m with Ok l -> "sels " ^ String.concat " " (List.map show_chars l) | Err N0 -> "err" | Err _ -> "err(code)" | Panic -> "panic"))
     (* ---- valueXMLName *)
     | [L [A "name"; tag]; L [A "obs"; ob]] ->
       let tag = match tag with L (A "none" :: _) -> None | L [A "tag"; t] -> Some (str t) | x -> raise (Parse_error ("tag " ^ show x)) in
